@@ -131,48 +131,86 @@ def r20_2(ctx: Ctx) -> None:
             raise AnalysisError(f"R20.2: PrimaiteGame.from_config no longer calls {name}")
         return cs[0]
 
+    # locals are identified by what they hold, never by what they are called
+    for_targets = {t.id for n in ast.walk(fc.node) if isinstance(n, ast.For) for t in ast.walk(n.target) if isinstance(t, ast.Name)}
+
+    def key_readers(e: Optional[ast.AST], key: str) -> Set[str]:
+        """Names N with N["key"] / N.get("key"...) somewhere in e (e is expanded through single-assignment locals first)."""
+        out: Set[str] = set()
+        if e is None:
+            return out
+        for x in ast.walk(ld.expand(e)):
+            if isinstance(x, ast.Subscript) and isinstance(x.value, ast.Name) and isinstance(x.slice, ast.Constant) and x.slice.value == key:
+                out.add(x.value.id)
+            if isinstance(x, ast.Call) and isinstance(x.func, ast.Attribute) and x.func.attr == "get" and isinstance(x.func.value, ast.Name) \
+                    and x.args and isinstance(x.args[0], ast.Constant) and x.args[0].value == key:
+                out.add(x.func.value.id)
+        return out
+
+    def all_defs(name: str) -> List[ast.AST]:
+        return [v for v, _ in ld.all_values(name) if v is not None]
+
     conn = one("connect")
-    for kw, needles in (("bandwidth", ["link_cfg", "bandwidth"]),):
-        ok, txt = _flows(fc, conn, kw, needles, ld)
-        ctx.record("R20.2", ctx.key(fc, "link bandwidth from the file"), fc.loc(conn), ok, f"connect(bandwidth={txt})")
+    bw = kwarg(conn, "bandwidth")
+    link_vars = key_readers(bw, "bandwidth") & for_targets
+    ctx.record("R20.2", ctx.key(fc, "link bandwidth from the file"), fc.loc(conn), bool(link_vars),
+               f"connect(bandwidth={unparse(ld.expand(bw))[:70] if bw is not None else '<missing>'}) reads 'bandwidth' of the link entry {sorted(link_vars)}")
     for side in ("a", "b"):
         v = kwarg(conn, f"endpoint_{side}")
-        defs = [unparse(x) for x, _ in ld.all_values(unparse(v))] if isinstance(v, ast.Name) else [unparse(v)]
-        ok = bool(defs) and all(f"endpoint_{side}_port" in d and f"node_{side}" in d for d in defs)
-        ctx.record("R20.2", ctx.key(fc, f"link endpoint {side} = declared port of the declared host"), fc.loc(conn), ok, f"{defs[:2]}")
-        nd = [unparse(x) for x, _ in ld.all_values(f"node_{side}")]
-        okn = bool(nd) and all("get_node_by_hostname" in d and f"endpoint_{side}_hostname" in d for d in nd)
-        ctx.record("R20.2", ctx.key(fc, f"link endpoint {side} host looked up by the declared hostname"), fc.loc(conn), okn, f"{nd[:2]}")
+        defs = all_defs(v.id) if isinstance(v, ast.Name) else ([v] if v is not None else [])
+        hosts: Set[str] = set()
+        ok = bool(defs)
+        for dexp in defs:
+            port_from = key_readers(dexp, f"endpoint_{side}_port") & (link_vars or for_targets)
+            base = {x.value.id for x in ast.walk(dexp) if isinstance(x, ast.Subscript) and isinstance(x.value, ast.Attribute)
+                    and isinstance(x.value.value, ast.Name) for x in [x]} if False else \
+                {x.value.value.id for x in ast.walk(dexp) if isinstance(x, ast.Subscript) and isinstance(x.value, ast.Attribute) and isinstance(x.value.value, ast.Name)}
+            ok = ok and bool(port_from) and len(base) == 1
+            hosts |= base
+        ctx.record("R20.2", ctx.key(fc, f"link endpoint {side} = declared port of the declared host"), fc.loc(conn), ok and len(hosts) == 1,
+                   f"{[unparse(d)[:60] for d in defs][:2]}")
+        nd = [d for h in hosts for d in all_defs(h)]
+        okn = bool(nd) and all(isinstance(d, ast.Call) and call_name(d) == "get_node_by_hostname" and key_readers(d, f"endpoint_{side}_hostname") for d in nd)
+        ctx.record("R20.2", ctx.key(fc, f"link endpoint {side} host looked up by the declared hostname"), fc.loc(conn), okn,
+                   f"{[unparse(d)[:70] for d in nd][:2]}")
     inst = [c for c in calls if call_name(c) == "install"]
     if len(inst) < 2:
         raise AnalysisError("R20.2: service/application install calls not found in from_config")
     for c in inst:
         v = kwarg(c, "software_config")
-        e = ld.expand(v) if v is not None else None
-        txt = unparse(e) if e is not None else "<missing>"
+        readers = key_readers(v, "options") & for_targets
         kind = "service" if "service" in unparse(c.args[0] if c.args else c).lower() else "application"
-        ok = "options" in txt and ("service_cfg" in txt or "application_cfg" in txt)
-        ctx.record("R20.2", ctx.key(fc, f"{kind} options reach install(software_config=)"), fc.loc(c), ok, f"software_config={txt[:70]}")
+        ctx.record("R20.2", ctx.key(fc, f"{kind} options reach install(software_config=)"), fc.loc(c), bool(readers),
+                   f"software_config={unparse(ld.expand(v))[:70] if v is not None else '<missing>'} reads 'options' of the declared entry {sorted(readers)}")
     ctx.record("R20.2", ctx.key(fc, "listen_on_ports applied to services"), fc.loc(),
                any(call_name(c) == "_set_software_listen_on_ports" for c in calls), "_set_software_listen_on_ports(new_service, service_cfg)")
     au = one("add_user")
-    ok = any(isinstance(k.value, ast.Name) and k.arg is None and "user_cfg" in unparse(k.value) for k in au.keywords)
-    ctx.record("R20.2", ctx.key(fc, "declared users are created"), fc.loc(au), ok, unparse(au)[:80])
-    # durations: the last store before net.add_node / return must come from node_cfg
+    spread = [k.value.id for k in au.keywords if k.arg is None and isinstance(k.value, ast.Name)]
+    user_loops = [n for n in ast.walk(fc.node) if isinstance(n, ast.For) and isinstance(n.target, ast.Name) and n.target.id in spread
+                  and any(isinstance(x, ast.Constant) and x.value == "users" for x in ast.walk(n.iter))]
+    ctx.record("R20.2", ctx.key(fc, "declared users are created"), fc.loc(au), bool(user_loops), unparse(au)[:80])
+    # durations: the last store before net.add_node / return must come from the node's own entry
+    node_vars: Set[str] = set()
     for attr, key in (("start_up_duration", "start_up_duration"), ("shut_down_duration", "shut_down_duration")):
-        stores = [n for n in ast.walk(fc.node) if isinstance(n, ast.Assign) and any(unparse(t) == f"new_node.config.{attr}" for t in n.targets)]
-        last = max(stores, key=lambda s: s.lineno) if stores else None
-        ok = last is not None and "node_cfg" in unparse(last.value) and key in unparse(last.value)
-        ctx.record("R20.2", ctx.key(fc, f"node {attr} from the file"), fc.loc(last) if last else fc.loc(), ok,
+        stores = [n for n in ast.walk(fc.node) if isinstance(n, ast.Assign) and any(
+            isinstance(t, ast.Attribute) and t.attr == attr and isinstance(t.value, ast.Attribute) and t.value.attr == "config" for t in n.targets)]
+        last = max(stores, key=lambda st: st.lineno) if stores else None
+        rd = key_readers(last.value, key) & for_targets if last is not None else set()
+        ctx.record("R20.2", ctx.key(fc, f"node {attr} from the file"), fc.loc(last) if last else fc.loc(), bool(rd),
                    f"final value: {unparse(last.value)[:60] if last else '?'}")
+        for st in stores:
+            for t in st.targets:
+                if isinstance(t, ast.Attribute) and isinstance(t.value, ast.Attribute) and isinstance(t.value.value, ast.Name):
+                    node_vars.add(t.value.value.id)
     # a node declared ON is powered on; one declared otherwise is not
-    pon = [c for c in calls if call_name(c) == "power_on" and unparse(c.func.value) == "new_node"]
+    pon = [c for c in calls if call_name(c) == "power_on" and isinstance(c.func.value, ast.Name) and c.func.value.id in node_vars]
     g = CFG(fc.node)
     pn = [n for n in g.nodes if any(c in pon for c in node_calls(n))]
-    p = g.path_avoiding(pn, lambda e: bool(e.label and e.label[0] == "cond" and "new_node.operating_state" in unparse(e.label[1])
-                                          and "ON" in unparse(e.label[1]) and e.label[2] is True))
+    p = g.path_avoiding(pn, lambda e: bool(e.label and e.label[0] == "cond" and any(
+        isinstance(x, ast.Attribute) and x.attr == "operating_state" and isinstance(x.value, ast.Name) and x.value.id in node_vars
+        for x in ast.walk(e.label[1])) and "ON" in unparse(e.label[1]) and e.label[2] is True))
     ctx.record("R20.2", ctx.key(fc, "only nodes declared ON are powered on at load"), fc.loc(), bool(pn) and p is None,
-               "new_node.power_on() only on the `operating_state == ON` edge")
+               "power_on() of the node being built only on the `operating_state == ON` edge")
     ni = ix.method("Node.__init__")
     st = [n for n in ast.walk(ni.node) if isinstance(n, ast.Assign) and any(unparse(t) == "self.operating_state" for t in n.targets)]
     ok = bool(st) and all("operating_state" in unparse(s.value) and "config" in unparse(s.value) for s in st)
